@@ -4,7 +4,7 @@
    Part 1 (this file): one guessing pass from an under-informed state. *)
 From Coq Require Import NArith ZArith List Bool Lia.
 From CA Require Import Model.Lexer Model.Parser Model.Literal Model.BigIntOps Model.Evaluator Model.Matcher Model.Resolver
-  Spec.Denote Proofs.EvalSemP Proofs.EvalMonoP Proofs.ResolverFixP Proofs.ResolverMonoP Proofs.ResolverTopP
+  Spec.Denote Spec.Chain Proofs.EvalSemP Proofs.EvalMonoP Proofs.ResolverFixP Proofs.ResolverMonoP Proofs.ResolverTopP
   Proofs.CertifiedP Proofs.DenoteP Proofs.StaticSizeP Proofs.CertUniqueP Proofs.DenoteCompleteP.
 Import ListNotations.
 Open Scope Z_scope.
@@ -78,34 +78,11 @@ Proof.
     apply filter_In in Hin; exact (proj1 Hin) end.
 Qed.
 
-(* ---------- the abstract run: which symbols are certainly right after each pass ---------- *)
-Definition memb (i : nat) (l : list nat) : bool := if in_dec Nat.eq_dec i l then true else false.
-Definition sym_known (ns : list node) (K : list nat) (s : nat) : bool := memb s K || negb (memb s (sym_ids ns)).
-Definition reads_known (names : list text) (ns : list node) (K : list nat) (e : expr) : bool :=
-  forallb (fun lp : N * list text =>
-             match lp with
-             | (0%N, [n]) => if text_eqb n s_dollar || text_eqb n s_pc then true
-                             else match find_sym names n 0 with Some s' => sym_known ns K s' | None => true end
-             | _ => true
-             end) (evars e).
-Definition kstep (names : list text) (ns : list node) (K : list nat) (n : node) : list nat :=
-  match n with
-  | NLabel s => s :: K
-  | NConst s e => if reads_known names ns K e then s :: K else remove Nat.eq_dec s K
-  | _ => K
-  end.
-Definition kpass (names : list text) (ns : list node) (K : list nat) (l : list node) : list nat := fold_left (kstep names ns) l K.
-Definition all_known (ns : list node) (K : list nat) : bool := forallb (fun s => memb s K) (sym_ids ns).
-Fixpoint sym_passes_from (names : list text) (ns : list node) (fuel : nat) (K : list nat) (p : nat) : option nat :=
-  match fuel with
-  | O => None
-  | S f => let K' := kpass names ns K ns in
-           if all_known ns K' then Some (S p) else sym_passes_from names ns f K' (S p)
-  end.
-(* number of passes after which every symbol is right (at least 1); None: the constants never settle syntactically *)
-Definition sym_passes (names : list text) (ns : list node) : option nat := sym_passes_from names ns (S (length ns)) [] 0.
-Definition chain (names : list text) (ns : list node) : option nat := option_map pred (sym_passes names ns).
-Definition budget_bound (names : list text) (ns : list node) : option nat := option_map (fun c => 3 + c)%nat (chain names ns).
+(* ---------- the abstract run (Spec.Chain): which symbols are certainly right after each pass ---------- *)
+Lemma expr_vars_eq : forall e, expr_vars e = evars e.
+Proof. reflexivity. Qed.
+Lemma decl_ids_eq ns : decl_ids ns = sym_ids ns.
+Proof. reflexivity. Qed.
 
 Lemma memb_In i l : memb i l = true <-> In i l.
 Proof. unfold memb. destruct (in_dec Nat.eq_dec i l); split; intro; auto; discriminate. Qed.
@@ -158,7 +135,7 @@ Proof.
 Qed.
 Lemma sym_known_remove_self K s : In s (sym_ids ns) -> sym_known ns (remove Nat.eq_dec s K) s = false.
 Proof.
-  intro Hs. unfold sym_known. apply orb_false_iff. split.
+  intro Hs. unfold sym_known. change (decl_ids ns) with (sym_ids ns). apply orb_false_iff. split.
   - destruct (memb s (remove Nat.eq_dec s K)) eqn:E; [|reflexivity]. apply memb_In in E. apply remove_In in E. destruct E.
   - apply negb_false_iff. now apply memb_In.
 Qed.
@@ -210,7 +187,7 @@ Proof.
       [left; now rewrite E|right; exact E].
   - intro Hr. rewrite <- Hev'. apply eval_ext. intros l p Hlp. apply pvar_same.
     intros n s' -> -> Hd Hf. apply (so_known _ _ S).
-    unfold reads_known in Hr. rewrite forallb_forall in Hr. specialize (Hr _ Hlp). cbn beta iota in Hr.
+    unfold reads_known in Hr. rewrite forallb_forall in Hr. rewrite <- expr_vars_eq in Hlp. specialize (Hr _ Hlp). cbn beta iota in Hr.
     rewrite Hd, Hf in Hr. exact Hr.
 Qed.
 
@@ -579,7 +556,7 @@ Proof.
   - intro i. destruct (nth_error (s_sym st0) i) as [v|] eqn:E.
     + right. f_equal. eapply Hsym0; eauto.
     + left. symmetry. eapply nth_error_None_len; [exact (proj1 (f_sym _ _ _ HF))|exact E].
-  - intros i Hi. apply (proj2 (f_sym _ _ _ HF)). intro Hin. unfold sym_known in Hi. cbn in Hi.
+  - intros i Hi. apply (proj2 (f_sym _ _ _ HF)). intro Hin. unfold sym_known in Hi. change (decl_ids ns) with (sym_ids ns) in Hi. cbn in Hi.
     apply memb_In in Hin. rewrite Hin in Hi. discriminate.
 Qed.
 
@@ -625,7 +602,7 @@ Proof.
               symok ns st [] (s_sym {| s_sym := set_nth (s_sym cur) s v'; s_instr := s_instr cur; s_data := s_data cur;
                                         s_res := s_res cur; s_align := s_align cur; s_addr := s_addr cur |})).
     { intros v' Hv'. cbn [s_sym]. eapply symok_write; [exact S|exact Hv'|auto|].
-      intro Hk. unfold sym_known in Hk. cbn in Hk. apply memb_In in Hs. rewrite Hs in Hk. discriminate. }
+      intro Hk. unfold sym_known in Hk. change (decl_ids ns) with (sym_ids ns) in Hk. cbn in Hk. apply memb_In in Hs. rewrite Hs in Hk. discriminate. }
     destruct (eval_sou (pvar_simple names cur) (pvar names st pos true) (pvar_simple_rel cur pos S) e []) as [Q|[c' Q]]; rewrite Q.
     + rewrite Hev'. pose proof (const_not_failed names defs ns st0 st HX _ _ _ _ E) as Hnf. rewrite Hv in Hnf.
       assert (W' := W v (or_introl (eq_sym Hv))).
@@ -692,8 +669,8 @@ Qed.
 Lemma all_known_sym K l : all_known ns K = true -> symok ns st K l -> l = s_sym st.
 Proof.
   intros A S. apply nth_error_ext; [exact (so_len _ _ _ _ S)|]. intro i. apply (so_known _ _ _ _ S).
-  unfold sym_known. destruct (memb i (sym_ids ns)) eqn:E; [|apply orb_true_r].
-  unfold all_known in A. rewrite forallb_forall in A. apply memb_In in E. rewrite (A i E). reflexivity.
+  unfold sym_known. change (decl_ids ns) with (sym_ids ns). destruct (memb i (sym_ids ns)) eqn:E; [|apply orb_true_r].
+  unfold all_known in A. change (decl_ids ns) with (sym_ids ns) in A. rewrite forallb_forall in A. apply memb_In in E. rewrite (A i E). reflexivity.
 Qed.
 
 (* after P under-informed passes every symbol is right; one more pass lands on the certified state *)
